@@ -245,12 +245,17 @@ Proof.
 Qed.
 
 (* ---------- the transformer applies an entry twice (legacy filter, then field-spec filter) ---------- *)
+(* the proposed repair (a Visited set shared by the two filters) was declined: the source still runs
+   both filters independently *)
+Lemma gen_image_transform_independent :
+  gen_image_transform_filters = 2 /\ gen_image_transform_shares_visited = false.
+Proof. split; reflexivity. Qed.
+
 Definition twice_doc : node :=
   Map [("kind", Scalar TStr SPlain "Pod");
        ("spec", Map [("containers", Seq [Map [("name", Scalar TStr SPlain "c");
                                               ("image", Scalar TStr SPlain "x:1")]])])].
 Definition twice_entry : image := mkImage "x" "" "-s" "" "".
-
 Definition twice_parse : string -> option re :=
   parse_of [("^x(:[a-zA-Z0-9_.{}-]*)?(@sha256:[a-zA-Z0-9_.{}-]*)?$", Some (img_re "x"))].
 
@@ -262,3 +267,9 @@ Lemma image_suffix_twice_lemma :
            ("spec", Map [("containers", Seq [Map [("name", Scalar TStr SPlain "c");
                                                   ("image", Scalar TNone SPlain "x:1-s-s")]])])]].
 Proof. split; vm_compute; reflexivity. Qed.
+
+(* the transformer is the legacy filter over every resource followed by the field-spec filter over every resource *)
+Lemma image_transform_sequential parse im fss rs :
+  image_transform parse im fss rs =
+  (do rs1 <- mapM (legacy_filter parse im) rs; mapM (image_fs_filter parse im fss) rs1).
+Proof. unfold image_transform. destruct gen_image_transform_independent as [_ ->]. reflexivity. Qed.
